@@ -100,6 +100,12 @@ def extra_harnesses():
                 hs.append(Harness(f"c08_audec_n{nd}_s{si}_o{cap_out}", f"crate::c08::au_decode({nd}, 40, {cap_out}, {rs_sched(s)}, 14)", unwind=44,
                                   unit="AuDecode::work", timeout=1800, shape={"block": "audecode", "data_bytes": nd, "cap_out": cap_out, "schedule": s},
                                   core=False))
+    for L in (4, 5):
+        for cap in (1, 2):
+            for si, s in enumerate(([(1, cap)] * 3, [(cap, 0), (cap, 0), (cap, 1)], [(2, 0), (2, 0), (1, 1)], [(L, 0), (0, 1), (0, 1)])):
+                hs.append(Harness(f"c08_zerocross_l{L}_c{cap}_s{si}", f"crate::c08::zero_crossing({L}, {max(cap, 2) if si == 3 else cap}, {rs_sched(s)}, {L + 4})",
+                                  unwind=14, unit="ZeroCrossing::work", timeout=1800,
+                                  shape={"block": "zerocrossing", "L": L, "cap": cap, "schedule": s}, core=False))
     # AuDecode data state only (cheap): odd/even piece sizes
     for nd in (4, 5, 6):
         for ci, (cap_in, cap_out) in enumerate(((3, 2), (5, 1), (4, 3))):
